@@ -351,7 +351,7 @@ impl Property for C15 {
         (0u8..4, big(), big(), proptest::bool::weighted(0.1), proptest::collection::vec(op(), 0..=40)).prop_map(|(ctor, ctor_arg, clock0, clock_err0, ops)| Scenario { ctor, ctor_arg, clock0, clock_err0, ops }).boxed()
     }
     fn cases(tier: Tier) -> u32 {
-        tier.pick(8_000, 120_000)
+        tier.pick(50_000, 250_000)
     }
     fn check(s: &Scenario) -> CheckResult {
         check(s)
